@@ -308,6 +308,8 @@ pub fn corpus() -> Vec<GffDesc> {
     add(&|n| n.ty = b"a\x1bb".to_vec());
     add(&|n| n.attrs = vec![(b"Note;=".to_vec(), vec![b"a;b=c&d,e%f\tg\nh".to_vec(), b"".to_vec(), "é,測".as_bytes().to_vec()]), (b"Parent".to_vec(), vec![b"p1".to_vec(), b"p2".to_vec(), b"p3".to_vec()])]);
     add(&|n| n.attrs = Vec::new());
+    // tags that start with an encoded character must be found by keyed access as well
+    add(&|n| n.attrs = vec![(b(";semi"), vec![b("1")]), (b("été"), vec![b("2"), b("3")]), (b("=eq"), vec![b("4")]), (b("%pct"), vec![b("5")]), (b(",c"), vec![b("6")]), (b("&amp"), vec![b("7")]), (b("\tt"), vec![b("8")]), (b("ID"), vec![b("9")])]);
     // a single value with a literal comma is a string, not an array
     add(&|n| n.attrs = vec![(b("Note"), vec![b("kinase, putative")]), (b("Name"), vec![b(",")]), (b("Alias"), vec![b("a,b"), b("c,d")])]);
     // rich line / minimal line / rich line / minimal line
@@ -460,6 +462,7 @@ pub fn check_record(d: &GffDesc, rng: &mut Rng, mon: &mut Mon, file: &mut Vec<Fi
 
     // (iii) lazy view vs the owned record built from it
     let b3 = bytes.clone();
+    let desc_attrs = n.attrs.clone();
     let lazy = guard::catch(move || -> Result<(Norm, Norm, Vec<bool>), String> {
         let mut r = gff::io::Reader::new(&b3[..]);
         let line = r.lines().next().ok_or("lines() yields nothing")?.map_err(|e| format!("lines(): {e}"))?;
@@ -481,6 +484,16 @@ pub fn check_record(d: &GffDesc, rng: &mut Rng, mon: &mut Mon, file: &mut Vec<Fi
                 gff::record::attributes::field::Value::Array(a) => (a.iter().map(|s| s.to_vec()).collect::<Vec<_>>(), true),
             });
             gets.push(got == Some((want, want_array)));
+        }
+        // keyed access for every tag of the description, inherent and through the trait object
+        for (tag, vals) in &desc_attrs {
+            let inh = rec.attributes().get(tag).and_then(|r| r.ok()).map(|v| match v {
+                gff::record::attributes::field::Value::String(s) => vec![s.to_vec()],
+                gff::record::attributes::field::Value::Array(a) => a.iter().map(|s| s.to_vec()).collect::<Vec<_>>(),
+            });
+            let dynattrs = gff::feature::Record::attributes(&rec);
+            let tr = dynattrs.get(tag).and_then(|r| r.ok()).and_then(|v| v.iter().map(|x| x.ok().map(|s| s.to_vec())).collect::<Option<Vec<_>>>());
+            gets.push(inh.as_ref() == Some(vals) && tr.as_ref() == Some(vals));
         }
         Ok((lz, Norm::of_record_buf(&owned), gets))
     });
@@ -507,7 +520,7 @@ pub fn check_record(d: &GffDesc, rng: &mut Rng, mon: &mut Mon, file: &mut Vec<Fi
                 }
             }
             if gets.iter().any(|ok| !ok) {
-                mon.v("gff3-lazy:attributes-get", format!("Attributes::get(tag) of the lazy view differs from the owned value on {}", show(&bytes)));
+                mon.v("gff3-lazy:attributes-get", format!("Attributes::get(tag) of the lazy view does not return the described / owned value for some tag of {:?} on {}", n.attrs.iter().map(|a| show(&a.0)).collect::<Vec<_>>(), show(&bytes)));
             }
             mon.c("gff3.lazy_views_compared", 1);
         }
